@@ -143,6 +143,27 @@ CORPUS = [
 ]
 
 
+def run_scripts_safe(drv, lines, workdir, name="scripts", timeout=3000, env=None, case_timeout=60):
+    """like gridlib.run_scripts, but tolerant of a child that dies in the middle of an output line (the parent's
+    `x crash:..` / `x hang` note is then glued to a truncated observation): the truncated observation is dropped"""
+    import re
+    os.makedirs(workdir, exist_ok=True)
+    sp = os.path.join(workdir, name + ".txt")
+    with open(sp, "w") as fh:
+        fh.write("\n".join(lines) + "\n")
+    rc, so, se = vlib.run([drv, sp, workdir, str(case_timeout)], timeout=timeout, env=env)
+    with open(os.path.join(workdir, name + ".out"), "w") as fh:
+        fh.write(so)
+    fixed = []
+    for line in so.split("\n"):
+        m = re.search(r"(?<!^)x (crash:\S+|hang) ", line)
+        if m and not line.startswith("x "):
+            fixed.append(line[m.start():])
+        else:
+            fixed.append(line)
+    return rc, gl.parse_output("\n".join(fixed)), so, se
+
+
 def omp_env(threads, sched):
     env = dict(os.environ)
     env.update({"OMP_NUM_THREADS": str(threads), "OMP_SCHEDULE": sched, "OMP_DYNAMIC": "false", "OMP_WAIT_POLICY": "passive",
@@ -234,62 +255,78 @@ def run(res, tier, seed, replay_script=None):
         cid = "s%d" % i
         spec, ls, changes = gen_script(r, cid, tier)
         scripts[cid], specs[cid] = ls, spec
-    for cid, ls in scripts.items():
-        lines += ls
 
-    # ---- the serial build is the reference
-    rc0, ref, so0, se0 = gl.run_scripts(pdrv, lines, os.path.join(WORK, "plain"), "scripts", timeout=3000, case_timeout=60)
-    if rc0 != 0:
-        res.violation("tsgdrv-crash", "tsgdrv (plain) exited with %d: %s" % (rc0, se0[-300:]), {"kind": "impl-counterexample", "script": lines[:40]})
+    # ---- the serial build is the reference; scripts are processed in batches (bounded memory in the thorough tier)
     configs = [(t, s) for t in THREADS for s in SCHEDULES]
+    stats = {"cases_compared": 0, "obs_exact": 0, "numeric_within_tol_not_bitwise": 0, "borderline_skipped": 0, "violations": 0, "hang_retries": 0}
+    serial_broken = set()
+    ids = list(scripts)
+    BATCH = 400
+    pool = 4 if tier == "quick" else 8
+    for b0 in range(0, len(ids), BATCH):
+        bids = ids[b0:b0 + BATCH]
+        blines = []
+        for cid in bids:
+            blines += scripts[cid]
+        tagb = "" if len(ids) <= BATCH else "-b%d" % (b0 // BATCH)
+        rc0, ref, so0, se0 = run_scripts_safe(pdrv, blines, os.path.join(WORK, "plain" + tagb), "scripts", timeout=3000, case_timeout=60)
+        if rc0 != 0:
+            res.violation("tsgdrv-crash", "tsgdrv (plain) exited with %d: %s" % (rc0, se0[-300:]), {"kind": "impl-counterexample", "script": blines[:40]})
 
-    def one(cfg):
-        t, s = cfg
-        wd = os.path.join(WORK, "omp-%d-%s" % (t, s.replace(",", "_")))
-        rc, cases, so, se = gl.run_scripts(odrv, lines, wd, "scripts", timeout=3000, env=omp_env(t, s), case_timeout=90)
-        return cfg, rc, cases, se
-    stats = {"cases_compared": 0, "obs_exact": 0, "numeric_within_tol_not_bitwise": 0, "borderline_skipped": 0, "violations": 0,
-             "hangs_retried": 0}
-    seen_keys = set()
-    with cf.ThreadPoolExecutor(4) as ex:
-        results = list(ex.map(one, configs))
-    for (t, s), rc, cases, se in results:
-        if rc != 0:
-            res.violation("tsgdrv-crash", "tsgdrv (omp, %d threads, %s) exited with %d: %s" % (t, s, rc, se[-300:]),
-                          {"kind": "impl-counterexample", "script": lines[:40]})
-            continue
-        for cid, ls in scripts.items():
-            a, b = ref.get(cid), cases.get(cid)
-            if a is None or b is None:
-                res.violation("omp-no-result", "case %s missing in the output of the %s build" % (cid, "plain" if a is None else "omp"),
-                              {"kind": "impl-counterexample", "script": ls, "threads": t, "schedule": s})
+        def one(cfg, blines=blines, tagb=tagb):
+            t, s = cfg
+            wd = os.path.join(WORK, "omp-%d-%s%s" % (t, s.replace(",", "_"), tagb))
+            rc, cases, so, se = run_scripts_safe(odrv, blines, wd, "scripts", timeout=3000, env=omp_env(t, s), case_timeout=90)
+            return cfg, rc, cases, se
+        with cf.ThreadPoolExecutor(pool) as ex:
+            results = list(ex.map(one, configs))
+        for (t, s), rc, cases, se in results:
+            if rc != 0:
+                res.violation("tsgdrv-crash", "tsgdrv (omp, %d threads, %s) exited with %d: %s" % (t, s, rc, se[-300:]),
+                              {"kind": "impl-counterexample", "script": blines[:40]})
                 continue
-            if any(st.exc and st.exc[0] == "hang" for st in a):
-                continue        # the serial build itself does not return on this script: not a statement about OpenMP
-            diffs, inexact = compare_case(a, b)
-            stats["cases_compared"] += 1
-            if inexact:
-                stats["numeric_within_tol_not_bitwise"] += 1
-            if not diffs:
-                stats["obs_exact"] += 1
-                continue
-            fam = specs.get(cid, {}).get("family") or (ls[1].split()[1] if len(ls) > 1 else "?")
-            for sev, tag, i, cmd, detail in diffs[:3]:
-                if sev == "int" and inexact:
-                    stats["borderline_skipped"] += 1       # a threshold decision after numerically different (within tolerance) coefficients
+            for cid in bids:
+                ls = scripts[cid]
+                a, b = ref.get(cid), cases.get(cid)
+                if a is None or b is None:
+                    res.violation("omp-no-result", "case %s missing in the output of the %s build" % (cid, "plain" if a is None else "omp"),
+                                  {"kind": "impl-counterexample", "script": ls, "threads": t, "schedule": s})
                     continue
-                # the state-changing command that produced the observed state
-                prev = next((st.cmd.split()[0] for st in reversed(a[:i + 1]) if st.cmd.split()[0] not in ("dump",)), "?")
-                key = "omp-differs:%s:%s:%s" % (fam, tag, prev)
-                stats["violations"] += 1
-                res.violation(key, "OpenMP build with OMP_NUM_THREADS=%d OMP_SCHEDULE=%s differs from the serial build in `%s` after `%s`: %s [%s]"
-                              % (t, s, tag, cmd[:80], detail, ls[1]),
-                              {"kind": "impl-counterexample", "script": ls, "threads": t, "schedule": s, "observation": tag, "detail": detail})
-    for cid, ls in scripts.items():
-        st = ref.get(cid) or []
-        nchg = sum(1 for x in st if x.cmd.split()[0] in ("refsurp", "refsimple", "refaniso", "update", "deliver", "finish") and x.exc is None)
-        if nchg >= 1:
-            nontriv.add(hashlib.sha256("\n".join(ls[1:]).encode()).hexdigest())
+                if any(st.exc and (st.exc[0] == "hang" or st.exc[0].startswith("crash")) for st in a):
+                    # the SERIAL build itself crashes / does not return on this script: not a statement about OpenMP (counted)
+                    serial_broken.add("%s: %s" % (cid, " ; ".join(ls[1:2] + [st.cmd[:60] for st in a if st.exc and st.exc[0] != "invalid_argument"][:1])))
+                    continue
+                if any(st.exc and st.exc[0] == "hang" for st in b):
+                    # a time-out is a finding only after a second run of this script alone with a 10x budget
+                    stats["hang_retries"] += 1
+                    rc2, again, so2, se2 = run_scripts_safe(odrv, ls, os.path.join(WORK, "retry"), "retry-%s-%d" % (cid, t), timeout=1200,
+                                                            env=omp_env(t, s), case_timeout=600)
+                    b = again.get(cid, b)
+                diffs, inexact = compare_case(a, b)
+                stats["cases_compared"] += 1
+                if inexact:
+                    stats["numeric_within_tol_not_bitwise"] += 1
+                if not diffs:
+                    stats["obs_exact"] += 1
+                    continue
+                fam = specs.get(cid, {}).get("family") or (ls[1].split()[1] if len(ls) > 1 else "?")
+                for sev, tag, i, cmd, detail in diffs[:3]:
+                    if sev == "int" and inexact:
+                        stats["borderline_skipped"] += 1   # a threshold decision after numerically different (within tolerance) coefficients
+                        continue
+                    # the state-changing command that produced the observed state
+                    prev = next((st.cmd.split()[0] for st in reversed(a[:i + 1]) if st.cmd.split()[0] not in ("dump",)), "?")
+                    key = "omp-differs:%s:%s:%s" % (fam, tag, prev)
+                    stats["violations"] += 1
+                    res.violation(key, "OpenMP build with OMP_NUM_THREADS=%d OMP_SCHEDULE=%s differs from the serial build in `%s` after `%s`: %s [%s]"
+                                  % (t, s, tag, cmd[:80], detail, ls[1]),
+                                  {"kind": "impl-counterexample", "script": ls, "threads": t, "schedule": s, "observation": tag, "detail": detail})
+        for cid in bids:
+            st = ref.get(cid) or []
+            nchg = sum(1 for x in st if x.cmd.split()[0] in ("refsurp", "refsimple", "refaniso", "update", "deliver", "finish") and x.exc is None)
+            if nchg >= 1:
+                nontriv.add(hashlib.sha256("\n".join(scripts[cid][1:]).encode()).hexdigest())
+        del ref, results
 
     # ---- particle swarm: the velocity loop of ParticleSwarm() is the only OpenMP region of DREAM/
     swarm = {"cases": 0, "configs": 0, "differences": 0}
@@ -365,6 +402,7 @@ def run(res, tier, seed, replay_script=None):
         "case_runs_compared": stats["cases_compared"], "case_runs_identical": stats["obs_exact"],
         "case_runs_numeric_within_1e-12_not_bitwise": stats["numeric_within_tol_not_bitwise"],
         "integer_differences_skipped_as_borderline": stats["borderline_skipped"],
+        "scripts_skipped_serial_build_crashes_or_hangs": sorted(serial_broken)[:20], "timeouts_retried_with_10x_budget": stats["hang_retries"],
         "family_distribution": fam_count, "swarm": swarm,
         "omp_sites": len(facts or []), "omp_site_classes": cls_count,
         "omp_sites_unmatched": ["%s:%d %s" % (f["file"], f["line"], f["note"][:100]) for f in unmatched],
